@@ -4,8 +4,17 @@ set -eu
 cd "$(dirname "$0")"
 export GOFLAGS=-mod=mod GOPROXY=off
 unset GOTOOLCHAIN GOSUMDB 2>/dev/null || true
-mkdir -p bin scratch
+mkdir -p bin _scratch
 go build -o bin/vinstr ./cmd/vinstr
-bin/vinstr -repo /repo -out scratch/ov-base -mode base
-go build -tags verif -overlay scratch/ov-base/overlay.json -o bin/vcheck ./cmd/vcheck
-go build -tags verif -overlay scratch/ov-base/overlay.json -o bin/vchild ./cmd/vchild
+bin/vinstr -repo /repo -out _scratch/ov-base -mode base
+go build -tags verif -overlay _scratch/ov-base/overlay.json -o bin/vcheck ./cmd/vcheck
+go build -tags verif -overlay _scratch/ov-base/overlay.json -o bin/vchild ./cmd/vchild
+if [ "${1:-all}" = "all" ] || [ "${1:-}" = "C05" ] || [ "${1:-}" = "C18" ]; then
+  bin/vinstr -repo /repo -out _scratch/ov-sched -mode sched
+  go build -tags verif -overlay _scratch/ov-sched/overlay.json -o bin/vsched ./cmd/vcheck
+fi
+if [ "${1:-all}" = "all" ] || [ "${1:-}" = "C18" ]; then
+  go build -race -tags verif -overlay _scratch/ov-sched/overlay.json -o bin/vsched-race ./cmd/vcheck
+  bin/vinstr -repo /repo -out _scratch/ov-schedfine -mode schedfine
+  go build -race -tags verif -overlay _scratch/ov-schedfine/overlay.json -o bin/vschedfine-race ./cmd/vcheck
+fi
